@@ -12,8 +12,13 @@ type Queue struct {
 	count    int
 }
 
-// NewQueue returns a Queue object.
+// NewQueue returns a Queue object, size is the initial capacity
+// and the step the capacity grows by, at least 1.
 func NewQueue(size int) *Queue {
+	if size < 1 {
+		size = 1
+	}
+
 	return &Queue{
 		elements: make([]any, size),
 		size:     size,
